@@ -34,6 +34,7 @@ Section Main.
   Variable P : prims.
   Variable e : env.
   Variable co : copts.
+  Variable nn : bool.          (* the NoNullSliceOrMap bit of the option word *)
 
   (* what the theorem needs of the executor and of the option word *)
   Hypothesis Hi : forall z, (- 2 ^ 63 <= z < 2 ^ 63)%Z -> p_i64toa P z = itoa z.
@@ -41,6 +42,9 @@ Section Main.
   Hypothesis Hq : forall s d, p_quote P s d = quote s d.
   Hypothesis Hbr : b_recurse P <> b_empty_arr P.
   Hypothesis Hnull : EncOnlyOmitNull co = false.
+
+  (* the option word carries the NoNullSliceOrMap bit nn (a definition, so that `subst` leaves nn alone) *)
+  Definition flag_nn (flg : N) : Prop := has_opts flg (b_empty_arr P) = nn.
 
   (* finite floats whose digit oracle the executor prints unchanged *)
   Definition fok (k : kind) (bits : N) (txt : option bytes) : Prop :=
@@ -53,9 +57,9 @@ Section Main.
 
   Definition code_ok (t : ty) (c : list instr) (pc : nat) : Prop :=
     forall flg prog r rest o k rqs v fuel addr res,
-      has_opts flg (b_empty_arr P) = false ->
+      flag_nn flg ->
       code_at prog pc c -> loc e (rp r) t v -> has_type t v ->
-      std_enc e Qraw fuel t v addr false = SOk res ->
+      std_enc e Qraw nn fuel t v addr false = SOk res ->
       (N.of_nat (length k + need v) <= p_stack P)%N ->
       exists n o' rqs', steps n (mks prog pc flg r rest o k rqs) (mks prog (pc + length c) flg r rest o' k rqs') /\
                         out_bytes o' = out_bytes o ++ res.
@@ -238,12 +242,12 @@ Section Main.
     fix go (l : list val) : sres :=
       match l with
       | [] => SOk []
-      | x :: r => dos a <- std_enc e Qraw f el x addr false; dos b <- go r;
+      | x :: r => dos a <- std_enc e Qraw nn f el x addr false; dos b <- go r;
                   SOk (match r with [] => a | _ => a ++ [44%N] ++ b end)
       end.
 
   Lemma enc_list_unfold : forall f el addr x r, enc_list f el addr (x :: r) =
-    sbind (std_enc e Qraw f el x addr false) (fun a => sbind (enc_list f el addr r) (fun b =>
+    sbind (std_enc e Qraw nn f el x addr false) (fun a => sbind (enc_list f el addr r) (fun b =>
       SOk (match r with [] => a | _ => a ++ [44%N] ++ b end))).
   Proof. reflexivity. Qed.
 
@@ -252,7 +256,7 @@ Section Main.
     match l with [] => SOk [] | _ => dos b <- enc_list f el addr l; SOk ([44%N] ++ b) end.
 
   Lemma enc_list_cons : forall f el addr x r a tb,
-    std_enc e Qraw f el x addr false = SOk a -> tail_items f el addr r = SOk tb ->
+    std_enc e Qraw nn f el x addr false = SOk a -> tail_items f el addr r = SOk tb ->
     enc_list f el addr (x :: r) = SOk (a ++ tb).
   Proof.
     intros f el addr x r a tb Ha Ht. rewrite enc_list_unfold. rewrite Ha. unfold sbind.
@@ -263,10 +267,10 @@ Section Main.
   Qed.
 
   Lemma enc_list_inv : forall f el addr x r items, enc_list f el addr (x :: r) = SOk items ->
-    exists a tb, std_enc e Qraw f el x addr false = SOk a /\ tail_items f el addr r = SOk tb /\ items = a ++ tb.
+    exists a tb, std_enc e Qraw nn f el x addr false = SOk a /\ tail_items f el addr r = SOk tb /\ items = a ++ tb.
   Proof.
     intros f el addr x r items H. rewrite enc_list_unfold in H. unfold sbind in H.
-    destruct (std_enc e Qraw f el x addr false) as [a|] eqn:Ea; [|discriminate H].
+    destruct (std_enc e Qraw nn f el x addr false) as [a|] eqn:Ea; [|discriminate H].
     destruct (enc_list f el addr r) as [b|] eqn:Eb; [|discriminate H].
     exists a. destruct r as [|y r'].
     - exists []. injection H as <-. repeat split; try reflexivity. rewrite app_nil_r. reflexivity.
@@ -274,7 +278,7 @@ Section Main.
   Qed.
 
   Lemma tail_items_cons : forall f el addr y r tb, tail_items f el addr (y :: r) = SOk tb ->
-    exists a tb', std_enc e Qraw f el y addr false = SOk a /\ tail_items f el addr r = SOk tb' /\ tb = [44%N] ++ a ++ tb'.
+    exists a tb', std_enc e Qraw nn f el y addr false = SOk a /\ tail_items f el addr r = SOk tb' /\ tb = [44%N] ++ a ++ tb'.
   Proof.
     intros f el addr y r tb H. unfold tail_items, sbind in H.
     destruct (enc_list f el addr (y :: r)) as [b|] eqn:Eb; [|discriminate H]. injection H as <-.
@@ -282,12 +286,12 @@ Section Main.
   Qed.
 
   Lemma std_enc_array : forall f n el l addr q, frag e el ->
-    std_enc e Qraw (S f) (TArray n el) (VArr l) addr q =
+    std_enc e Qraw nn (S f) (TArray n el) (VArr l) addr q =
     sbind (enc_list f el addr l) (fun items => SOk ([91%N] ++ items ++ [93%N])).
   Proof. intros. destruct addr; reflexivity. Qed.
 
   Lemma std_enc_slice : forall f el l addr q, frag e el -> is_simple_byte e el = false ->
-    std_enc e Qraw (S f) (TSlice el) (VSlice (Some l)) addr q =
+    std_enc e Qraw nn (S f) (TSlice el) (VSlice (Some l)) addr q =
     sbind (enc_list f el true l) (fun items => SOk ([91%N] ++ items ++ [93%N])).
   Proof.
     intros f el l addr q Hel Hsb.
@@ -315,7 +319,7 @@ Section Main.
     Lemma arrayRest_ok : forall n cf tab cpv i sp pc code, tab_above tab el ->
       arrayRest e (compileOne e co cf) tab cpv n i sp pc el = COk code ->
       forall flg prog r rest o kk rqs l fuel addr tb,
-        has_opts flg (b_empty_arr P) = false ->
+        flag_nn flg ->
         code_at prog pc code ->
         loc e (rp r) (TArray (length l) el) (VArr l) ->
         (forall x, In x l -> has_type el x) ->
@@ -459,7 +463,7 @@ Section Main.
 
     (* the loop of a slice after its first item: at the second OP_slice_next *)
     Lemma slice_loop : forall n (l : list val) j fin c2 flg prog rest r0 kk,
-      has_opts flg (b_empty_arr P) = false ->
+      flag_nn flg ->
       nth_error prog j = Some (OP_slice_next fin el) -> nth_error prog (j + 1) = Some (OP_byte 44) ->
       code_at prog (j + 2) c2 -> nth_error prog (j + 2 + length c2) = Some (OP_goto j) ->
       code_ok el c2 (j + 2) ->
@@ -549,9 +553,9 @@ Section Main.
           eexists 2, _, rqs. split.
           * eapply steps_S; [eapply step_is_nil; [exact I0|exact Hleaf|reflexivity]|]. cbn [word0_zero].
             replace (pc + 1 + 2) with (pc + 3) by lia.
-            eapply steps_S; [apply step_empty_arr; [exact I3|exact Hflg]|].
+            eapply steps_S; [apply step_empty_arr; exact I3|].
             replace (S (pc + 3)) with (pc + 4) by lia. apply steps_O.
-          * rewrite out_cons. reflexivity.
+          * rewrite out_cons. rewrite (Hflg : has_opts flg (b_empty_arr P) = nn). reflexivity.
         + (* bytes *)
           cbn in Hstd. replace (addr && false) with false in Hstd by (destruct addr; reflexivity). cbn in Hstd.
           rewrite (bytes_same l Hall) in Hstd.
@@ -627,9 +631,9 @@ Section Main.
           cbn in Hstd. replace (addr && false) with false in Hstd by (destruct addr; reflexivity). cbn in Hstd. injection Hstd as <-.
           eexists 2, _, rqs. split.
           * eapply steps_S; [eapply step_is_nil; [exact I0|exact Hleaf|reflexivity]|]. cbn [word0_zero].
-            eapply steps_S; [apply step_empty_arr; [exact Iend1|exact Hflg]|].
+            eapply steps_S; [apply step_empty_arr; exact Iend1|].
             replace (S (fin + 3)) with (fin + 4) by lia. apply steps_O.
-          * rewrite out_cons. reflexivity.
+          * rewrite out_cons. rewrite (Hflg : has_opts flg (b_empty_arr P) = nn). reflexivity.
         + (* non-nil slice *)
           rewrite (std_enc_slice fuel el l addr false Hel Esb) in Hstd. unfold sbind in Hstd.
           destruct (enc_list fuel el true l) as [items|] eqn:Eitems; [|discriminate Hstd]. injection Hstd as <-.
@@ -721,14 +725,14 @@ Section Main.
               | Some fv =>
                   if (F_omitempty fd && is_empty_value e (f_type fd) fv) || (F_omitzero fd && is_zero_val e (f_type fd) fv)
                   then go r first
-                  else dos x <- std_enc e Qraw f (f_type fd) fv a (F_stringize fd); dos rest <- go r false;
+                  else dos x <- std_enc e Qraw nn f (f_type fd) fv a (F_stringize fd); dos rest <- go r false;
                        SOk ((if first then [] else [44%N]) ++ q1 Qraw (f_name fd) ++ [58%N] ++ x ++ rest)
               end
           end
       end.
 
   Lemma std_enc_struct : forall f sz ph fs vs addr q,
-    std_enc e Qraw (S f) (TStruct sz ph fs) (VStruct vs) addr q =
+    std_enc e Qraw nn (S f) (TStruct sz ph fs) (VStruct vs) addr q =
     sbind (enc_fields f (TStruct sz ph fs) (VStruct vs) addr fs true) (fun items => SOk ([123%N] ++ items ++ [125%N])).
   Proof. intros. destruct addr; reflexivity. Qed.
 
@@ -736,9 +740,9 @@ Section Main.
   (* ---- field options: `,string` on scalars, omitempty tests *)
   Definition code_okq (t : ty) (c : list instr) (pc : nat) (q : bool) : Prop :=
     forall flg prog r rest o k rqs v fuel addr res,
-      has_opts flg (b_empty_arr P) = false ->
+      flag_nn flg ->
       code_at prog pc c -> loc e (rp r) t v -> has_type t v ->
-      std_enc e Qraw fuel t v addr q = SOk res ->
+      std_enc e Qraw nn fuel t v addr q = SOk res ->
       (N.of_nat (length k + need v) <= p_stack P)%N ->
       exists n o' rqs', steps n (mks prog pc flg r rest o k rqs) (mks prog (pc + length c) flg r rest o' k rqs') /\
                         out_bytes o' = out_bytes o ++ res.
@@ -750,8 +754,8 @@ Section Main.
   Proof. decide equality. Qed.
 
   Lemma std_enc_scalar_q : forall k f v addr, scalar_kind k = true -> k <> KString -> has_type (TPrim k) v ->
-    std_enc e Qraw f (TPrim k) v addr true =
-    sbind (std_enc e Qraw f (TPrim k) v addr false) (fun x => SOk ([34%N] ++ x ++ [34%N])).
+    std_enc e Qraw nn f (TPrim k) v addr true =
+    sbind (std_enc e Qraw nn f (TPrim k) v addr false) (fun x => SOk ([34%N] ++ x ++ [34%N])).
   Proof.
     intros k f v addr Hk Hs Hv. destruct f as [|f]; [reflexivity|].
     inversion Hv as [b0 | k0 z Hr | k0 bits txt Hk0 Hfok | s0 | | | | |  | ]; subst.
@@ -784,7 +788,7 @@ Section Main.
       pose proof (scalar_ok k cf tab cpv sp (pc + 0 + 1) cpv c1 Hk Htab Ec1) as Hc1.
       intros flg prog r rest o kk rqs v fuel addr res Hflg Hcode Hloc Hty Hstd Hstk.
       rewrite (std_enc_scalar_q k fuel v addr Hk Hns Hty) in Hstd. unfold sbind in Hstd.
-      destruct (std_enc e Qraw fuel (TPrim k) v addr false) as [x|] eqn:Ex; [|discriminate Hstd]. injection Hstd as <-.
+      destruct (std_enc e Qraw nn fuel (TPrim k) v addr false) as [x|] eqn:Ex; [|discriminate Hstd]. injection Hstd as <-.
       assert (I0 : nth_error prog pc = Some (OP_byte 34)) by (eapply code_hd; exact Hcode).
       pose proof (code_at_app_r prog pc [OP_byte 34] (c1 ++ [OP_byte 34]) Hcode) as H1. cbn [length] in H1.
       pose proof (code_at_app_l _ _ _ _ H1) as C1. pose proof (code_at_app_r _ _ _ _ H1) as H2.
@@ -876,7 +880,7 @@ Section Main.
       enc_fields f ST (VStruct vs) addr (fd :: r) first =
       if F_omitempty fd && is_empty_value e (f_type fd) x then enc_fields f ST (VStruct vs) addr r first
       else
-      sbind (std_enc e Qraw f (f_type fd) x addr (F_stringize fd)) (fun a =>
+      sbind (std_enc e Qraw nn f (f_type fd) x addr (F_stringize fd)) (fun a =>
         sbind (enc_fields f ST (VStruct vs) addr r false) (fun rest =>
           SOk ((if first then [] else [44%N]) ++ quote (f_name fd) false ++ [58%N] ++ a ++ rest))).
     Proof.
@@ -891,7 +895,7 @@ Section Main.
              | Some fv =>
                  if (F_omitempty fd && is_empty_value e (f_type fd) fv) || (F_omitzero fd && is_zero_val e (f_type fd) fv)
                  then enc_fields f ST (VStruct vs) addr r first
-                 else dos x <- std_enc e Qraw f (f_type fd) fv a (F_stringize fd); dos rest <- enc_fields f ST (VStruct vs) addr r false;
+                 else dos x <- std_enc e Qraw nn f (f_type fd) fv a (F_stringize fd); dos rest <- enc_fields f ST (VStruct vs) addr r false;
                       SOk ((if first then [] else [44%N]) ++ q1 Qraw (f_name fd) ++ [58%N] ++ x ++ rest)
              end
          end).
@@ -902,10 +906,10 @@ Section Main.
     (* from the comma test on: ", name : value" and back to the struct *)
     Lemma emit_part : forall ft v q pc0 tx, code_okq ft v (pc0 + 3) q ->
       forall flg prog r0 rest o kk rqs c fo x fuel addr a,
-        has_opts flg (b_empty_arr P) = false ->
+        flag_nn flg ->
         code_at prog pc0 ([OP_cond_testc (pc0 + 2); OP_byte 44; OP_text tx] ++ v ++ [OP_load]) ->
         loc e (padd (rp r0) fo) ft x -> has_type ft x ->
-        std_enc e Qraw fuel ft x addr q = SOk a ->
+        std_enc e Qraw nn fuel ft x addr q = SOk a ->
         (N.of_nat (S (length kk) + need x) <= p_stack P)%N ->
         exists n o' rqs',
           steps n (mks prog pc0 flg (set_p (rc r0 c) (padd (rp r0) fo)) rest o (r0 :: kk) rqs)
@@ -942,7 +946,7 @@ Section Main.
       forall cf tab cpv sp pc code, tab_above tab ST ->
       fieldsCode e co (compileOne e co cf) (ST :: tab) cpv sp pc fs = COk code ->
       forall flg prog r0 rest o kk rqs vs c fuel addr items,
-        has_opts flg (b_empty_arr P) = false ->
+        flag_nn flg ->
         code_at prog pc code ->
         loc e (rp r0) ST (VStruct vs) -> length vs = length ph ->
         (forall k o t x, nth_error ph k = Some (o, t) -> nth_error vs k = Some x -> has_type t x) ->
@@ -1032,7 +1036,7 @@ Section Main.
             replace (pc + length (fcode ++ cfs)) with (pc + length fcode + length cfs) by (rewrite app_length; lia).
             exact Hst3.
           * unfold sbind in Henc.
-            destruct (std_enc e Qraw fuel (f_type fd) x addr (F_stringize fd)) as [a|] eqn:Ea; [|discriminate Henc].
+            destruct (std_enc e Qraw nn fuel (f_type fd) x addr (F_stringize fd)) as [a|] eqn:Ea; [|discriminate Henc].
             destruct (enc_fields fuel ST (VStruct vs) addr fs false) as [restb|] eqn:Erest; [|discriminate Henc].
             injection Henc as <-.
             destruct (emit_part _ _ _ _ tx Hcv flg prog r0 rest o kk rqs c fo x fuel addr a Hflg Cem Hlx Htx Ea ltac:(lia)) as (m2 & o2 & rq2 & Hst2 & Ho2).
@@ -1048,7 +1052,7 @@ Section Main.
             -- rewrite Ho3, Ho2. unfold tx, quote. cbn [app]. repeat (rewrite <- app_assoc; cbn [app]). reflexivity.
         + (* no omitempty *)
           cbn [length] in no. cbn [andb] in Henc. unfold sbind in Henc.
-          destruct (std_enc e Qraw fuel (f_type fd) x addr (F_stringize fd)) as [a|] eqn:Ea; [|discriminate Henc].
+          destruct (std_enc e Qraw nn fuel (f_type fd) x addr (F_stringize fd)) as [a|] eqn:Ea; [|discriminate Henc].
           destruct (enc_fields fuel ST (VStruct vs) addr fs false) as [restb|] eqn:Erest; [|discriminate Henc].
           injection Henc as <-.
           assert (Hfl : length fcode = 1 + 3 + length cv + 1) by (unfold fcode; cbn [length app]; rewrite app_length; cbn [length]; lia).
@@ -1124,8 +1128,8 @@ Section Main.
       intros flg prog r rest o kk rqs v fuel addr res Hflg Hcode Hloc Hty Hstd Hstk.
       set (fv := if pv then set_bit flg (b_recurse P) else clear_bit flg (b_recurse P)).
       destruct (Hcomp (has_opts fv BitPointerValue)) as [prog' Hp'].
-      assert (Hflg' : has_opts fv (b_empty_arr P) = false).
-      { unfold fv. destruct pv; [rewrite has_opts_set_other by exact Hbr|rewrite has_opts_clear_other by exact Hbr]; exact Hflg. }
+      assert (Hflg' : flag_nn fv).
+      { unfold flag_nn, fv. destruct pv; [rewrite has_opts_set_other by exact Hbr|rewrite has_opts_clear_other by exact Hbr]; exact Hflg. }
       (* the nested program is the inlined body *)
       assert (Hok' : code_ok ST prog' 0).
       { unfold compile in Hp'. change compile_fuel with (S 399) in Hp'. rewrite compileOne_S in Hp'.
@@ -1188,10 +1192,10 @@ Section Main.
 
   (* Marshal of a value of the fragment: the machine stops with exactly the bytes of the reference encoder *)
   Theorem exec_frag : forall flg t v fuel res prog,
-    has_opts flg (b_empty_arr P) = false ->
+    flag_nn flg ->
     frag e t -> compilable t -> has_type t v ->
     compile e co t (has_opts flg BitPointerValue) = COk prog ->
-    std_marshal e Qraw fuel (Some (t, v)) = SOk res ->
+    std_marshal e Qraw nn fuel (Some (t, v)) = SOk res ->
     (N.of_nat (need v) <= p_stack P)%N ->
     exists s0 k, call e co state0 t (PAt t v 0) flg = Running s0 /\
                  forall n, k < 2 ^ n -> run P e co n s0 = Done res.
@@ -1237,12 +1241,12 @@ Section Agree.
   Theorem marshal_agree_frag : forall t v fuel res prog,
     frag e t -> compilable e co t -> has_type (fok P) t v ->
     compile e co t false = COk prog ->
-    std_marshal e Qraw fuel (Some (t, v)) = SOk res ->
+    std_marshal e Qraw false fuel (Some (t, v)) = SOk res ->
     (N.of_nat (need v) <= p_stack P)%N ->
     agree (encode P e co std_flags (Some (t, v))) res.
   Proof.
     intros t v fuel res prog Ht Hcp Hv Hc Hstd Hstk.
-    destruct (exec_frag P e co Hi Hu Hq Hbr Hnull Hinline std_flags t v fuel res prog Hflg Ht Hcp Hv Hc Hstd Hstk) as (s0 & k & Hcall & Hrun).
+    destruct (exec_frag P e co false Hi Hu Hq Hbr Hnull Hinline std_flags t v fuel res prog Hflg Ht Hcp Hv Hc Hstd Hstk) as (s0 & k & Hcall & Hrun).
     unfold agree, encode, exec_top. rewrite Hcall.
     assert (Hk : k < 2 ^ (40 + k)) by (pose proof (pow2_gt (40 + k)); lia).
     pose proof (Hrun (40 + k) Hk) as H1.
@@ -1259,7 +1263,7 @@ End Agree.
 Theorem marshal_agree_jit : forall e co t v fuel res prog,
   0 < MaxInlineDepth co -> EncOnlyOmitNull co = false ->
   frag e t -> compilable e co t -> has_type (fok prims_jit) t v -> compile e co t false = COk prog ->
-  std_marshal e Qraw fuel (Some (t, v)) = SOk res -> (need v <= 4096)%nat ->
+  std_marshal e Qraw false fuel (Some (t, v)) = SOk res -> (need v <= 4096)%nat ->
   agree (encode prims_jit e co std_flags (Some (t, v))) res.
 Proof.
   intros e co t v fuel res prog Hin Hnu Ht Hcp Hv Hc Hs Hn.
@@ -1270,7 +1274,7 @@ Qed.
 Theorem marshal_agree_vm : forall e co t v fuel res prog,
   0 < MaxInlineDepth co -> EncOnlyOmitNull co = false ->
   frag e t -> compilable e co t -> has_type (fok prims_vm) t v -> compile e co t false = COk prog ->
-  std_marshal e Qraw fuel (Some (t, v)) = SOk res -> (need v <= 4096)%nat ->
+  std_marshal e Qraw false fuel (Some (t, v)) = SOk res -> (need v <= 4096)%nat ->
   agree (encode prims_vm e co std_flags (Some (t, v))) res.
 Proof.
   intros e co t v fuel res prog Hin Hnu Ht Hcp Hv Hc Hs Hn.
@@ -1289,7 +1293,7 @@ Definition ex_out : bytes :=
 
 Example frag_example :
   frag [] ex_ty /\ compilable [] default_copts ex_ty /\ has_type (fok prims_jit) ex_ty ex_val /\
-  std_marshal [] Qraw 10 (Some (ex_ty, ex_val)) = SOk ex_out /\
+  std_marshal [] Qraw false 10 (Some (ex_ty, ex_val)) = SOk ex_out /\
   encode prims_jit [] default_copts std_flags (Some (ex_ty, ex_val)) = Done ex_out.
 Proof.
   split; [|split; [|split; [|split]]].
@@ -1315,7 +1319,7 @@ Definition ex2_out : bytes := [123; 34; 110; 34; 58; 34; 53; 34; 44; 34; 115; 34
 
 Example frag_example_opts :
   frag [] ex2_ty /\ compilable [] default_copts ex2_ty /\ has_type (fok prims_jit) ex2_ty ex2_val /\
-  std_marshal [] Qraw 10 (Some (ex2_ty, ex2_val)) = SOk ex2_out /\
+  std_marshal [] Qraw false 10 (Some (ex2_ty, ex2_val)) = SOk ex2_out /\
   encode prims_jit [] default_copts std_flags (Some (ex2_ty, ex2_val)) = Done ex2_out.
 Proof.
   split; [|split; [|split; [|split]]].
